@@ -5,6 +5,7 @@ package main
 
 import (
 	"fmt"
+	"go/constant"
 	"go/token"
 	"go/types"
 	"regexp/syntax"
@@ -452,53 +453,47 @@ func ruleP03Result(p *Prog, r *Report) {
 		r.bad(rule, "MakeResult:text", p.pos(mk.Pos()), "MakeResult does not re-parse a text")
 	} else {
 		text := parse.Common().Args[len(parse.Common().Args)-1]
-		if okB, handled := p.builderFold(mk, text, orig); handled {
-			r.check(okB, rule, "MakeResult:text", p.instrPos(parse), "text = concatenation (strings.Builder) of Original() of every line, in order", "the text MakeResult validates and returns is not the unconditional in-order concatenation of l.Original() over r.lines")
-			text = nil
-		}
-		phis, ins := phiCycle(text)
-		ok := len(phis) > 0
-		nCat := 0
-		if text == nil {
-			ins = nil
-		}
-		for _, in := range ins {
-			if s, isS := constString(in); isS {
-				if s != "" {
+		// The text is an accumulator (`+=` or a strings.Builder, here or in a helper) that starts
+		// empty and receives, on every iteration over r.lines and in this order, the line's Text
+		// and LineEnding (or its Original(), which is the two).
+		evs, init, ok := appendEvents(text)
+		ok = ok && init == "" && orderedEvents(evs)
+		var seq []string
+		for _, e := range evs {
+			var leaves []ssa.Value
+			concatLeaves(e.val, &leaves, 0)
+			for _, l := range leaves {
+				if s, isS := constString(l); isS && s == "" {
+					continue
+				}
+				var recv ssa.Value
+				if c, isC := isCallTo(l, orig, 0); isC {
+					recv = c.Common().Args[0]
+					seq = append(seq, "Text", "LineEnding")
+				} else if base, fld := fieldLoad(l); fld == "Text" || fld == "LineEnding" {
+					recv = base
+					seq = append(seq, fld)
+				} else {
+					ok = false
+					continue
+				}
+				coll := rangeElemOf(recv)
+				if coll == nil {
+					ok = false
+					continue
+				}
+				if _, fld := fieldLoad(coll); fld != "lines" {
 					ok = false
 				}
-				continue
 			}
-			b, isB := in.(*ssa.BinOp)
-			if !isB || b.Op != token.ADD {
-				ok = false
-				continue
-			}
-			nCat++
-			ph, isPhi := strip(b.X).(*ssa.Phi)
-			if !isPhi || !phis[ph] {
-				ok = false // prepend or something else
-			}
-			c, isC := isCallTo(b.Y, orig, 0)
-			if !isC {
-				ok = false
-				continue
-			}
-			coll := rangeElemOf(c.Common().Args[0])
-			if coll == nil {
-				ok = false
-				continue
-			}
-			if _, fld := fieldLoad(coll); fld != "lines" {
+			if only, _ := onlyLoopGuards(blockIn(mk, e.at)); !only {
 				ok = false
 			}
-			if only, _ := onlyLoopGuards(b.Block()); !only {
+			if only, _ := onlyLoopGuards(e.at.Block()); !only {
 				ok = false
 			}
 		}
-		if text != nil {
-			r.check(ok && nCat == 1, rule, "MakeResult:text", p.instrPos(parse), "text = concatenation of Original() of every line, in order", "the text MakeResult validates and returns is not the unconditional in-order concatenation of l.Original() over r.lines")
-		}
+		r.check(ok && strings.Join(seq, "+") == "Text+LineEnding", rule, "MakeResult:text", p.instrPos(parse), "text = concatenation of Text+LineEnding (Original()) of every line, in order", "the text MakeResult validates and returns is not the unconditional in-order concatenation of l.Original() over r.lines")
 	}
 	// flatten: result = append(result, b.Lines()...) for every block
 	for _, ret := range returnsOf(flat) {
@@ -639,6 +634,27 @@ func ruleP08Cursor(p *Prog, r *Report) {
 			okCount = false
 			continue
 		}
+		// The count may be the cursor itself (one variable for both): then it is 0 or the end of
+		// the last kept line, which is what the cursor checks above establish, provided the end
+		// of a line only flows in on the path that keeps the line.
+		if isPhi && phis[lo] {
+			for ph := range phis {
+				for i, e := range ph.Edges {
+					if q, isQ := strip(e).(*ssa.Phi); isQ && phis[q] {
+						continue
+					}
+					if k, isK := constInt(e); isK && k == 0 {
+						continue
+					}
+					pbk := ph.Block().Preds[i]
+					if sameValue(e, sl.High) && (pbk == app.Block() || app.Block().Dominates(pbk)) {
+						continue
+					}
+					okCount = false
+				}
+			}
+			continue
+		}
 		nAdd := 0
 		for _, in := range ins {
 			if k, isK := constInt(in); isK {
@@ -658,7 +674,7 @@ func ruleP08Cursor(p *Prog, r *Report) {
 			if ph, isP := strip(b.X).(*ssa.Phi); !isP || !phis[ph] {
 				inc = b.X
 			}
-			if !derivesFromLine(inc, cs[0].Common().Args[0], cs[0].Value(), 0) {
+			if !derivesFromLine(inc, cs[0].Common().Args[0], cs[0].Value(), 0) && !polyOf(inc).equal(polySub(polyOf(sl.High), polyOf(sl.Low))) {
 				okCount = false
 			}
 		}
@@ -791,44 +807,44 @@ func ruleP08Split(p *Prog, r *Report) {
 	const rule = "P08-split"
 	f := p.fn("klog/parser/txt", "splitOffLineEnding")
 	nl := p.fn("klog/parser/txt", "NewLineFromString")
-	if !r.anchorFn(rule, f, "txt.splitOffLineEnding") || !r.anchorFn(rule, nl, "txt.NewLineFromString") {
+	if !r.anchorFn(rule, nl, "txt.NewLineFromString") {
 		return
 	}
-	text := f.Params[0]
-	for i, ret := range returnsOf(f) {
-		key := fmt.Sprintf("return#%d", i)
-		a, b := strip(retResult(ret, 0)), strip(retResult(ret, 1))
-		if a == ssa.Value(text) {
+	// one way of splitting: the (text, ending) pair chosen at `at`, for the raw text `text`
+	checkPair := func(key string, at ssa.Instruction, a, b ssa.Value, text ssa.Value) {
+		a, b = strip(a), strip(b)
+		blk := at.Block()
+		if a == text {
 			s, isS := constString(b)
-			r.check(isS && s == "", rule, key, p.instrPos(ret), "no known ending: (text, \"\")", "without a line ending the text is not returned whole with an empty ending")
-			continue
+			r.check(isS && s == "", rule, key, p.instrPos(at), "no known ending: (text, \"\")", "without a line ending the text is not returned whole with an empty ending")
+			return
 		}
 		// the library spelling: rest, found := strings.CutSuffix(text, e); if found { return rest, e }
 		if cc, idx := callOf(a); cc != nil && idx == 0 && staticCallee(cc) != nil && staticCallee(cc).String() == "strings.CutSuffix" {
-			okCut := strip(cc.Common().Args[0]) == ssa.Value(text) && sameValue(cc.Common().Args[1], b)
+			okCut := strip(cc.Common().Args[0]) == text && sameValue(cc.Common().Args[1], b)
 			found := false
-			for _, g := range guardsOf(ret.Block()) {
+			for _, g := range guardsOf(blk) {
 				if gc, gi := callOf(strip(g.Cond)); gc == cc && gi == 1 && g.Pol {
 					found = true
 				}
 			}
-			r.check(okCut && found, rule, key, p.instrPos(ret), "(text minus its suffix e, e) when text ends in e", "splitOffLineEnding does not return CutSuffix(text, e) and e under 'found'")
-			continue
+			r.check(okCut && found, rule, key, p.instrPos(at), "(text minus its suffix e, e) when text ends in e", "the line is not split into CutSuffix(text, e) and e under 'found'")
+			return
 		}
 		// text[:len(text)-len(e)], e   guarded by HasSuffix(text, e)
 		sl, ok := a.(*ssa.Slice)
-		good := ok && strip(sl.X) == ssa.Value(text) && sl.Low == nil && sl.High != nil
+		good := ok && strip(sl.X) == text && sl.Low == nil && sl.High != nil
 		if good {
 			pl := polyOf(sl.High)
 			good = pl.C == 0 && len(pl.Terms) == 2
 			sawText, sawE := false, false
 			for k, c := range pl.Terms {
 				lc, isC := strip(pl.leafV[k]).(*ssa.Call)
-				if !isC {
+				if !isC || len(lc.Call.Args) != 1 {
 					good = false
 					continue
 				}
-				if c == 1 && strip(lc.Call.Args[0]) == ssa.Value(text) {
+				if c == 1 && strip(lc.Call.Args[0]) == text {
 					sawText = true
 				}
 				if c == -1 && sameValue(lc.Call.Args[0], b) {
@@ -838,80 +854,75 @@ func ruleP08Split(p *Prog, r *Report) {
 			good = good && sawText && sawE
 		}
 		suffix := false
-		for _, g := range guardsOf(ret.Block()) {
+		for _, g := range guardsOf(blk) {
 			if c, isC := g.Cond.(*ssa.Call); isC && g.Pol && staticCallee(c) != nil && staticCallee(c).String() == "strings.HasSuffix" {
-				if strip(c.Call.Args[0]) == ssa.Value(text) && sameValue(c.Call.Args[1], b) {
+				if strip(c.Call.Args[0]) == text && sameValue(c.Call.Args[1], b) {
 					suffix = true
 				}
 			}
 		}
-		r.check(good && suffix, rule, key, p.instrPos(ret), "(text minus its suffix e, e) when text ends in e", "splitOffLineEnding does not return text[:len(text)-len(e)] and e for a suffix e of text")
+		r.check(good && suffix, rule, key, p.instrPos(at), "(text minus its suffix e, e) when text ends in e", "the line is not split into text[:len(text)-len(e)] and e for a suffix e of text")
 	}
-	// NewLineFromString stores both parts in place
-	cs := callsTo(nl, f)
-	ok := len(cs) == 1
-	if ok {
-		t, e := resultOf(cs[0], 0), resultOf(cs[0], 1)
-		nOK := 0
-		eachInstr(nl, func(in ssa.Instruction) {
-			if st, isSt := in.(*ssa.Store); isSt {
-				if fa, isFa := st.Addr.(*ssa.FieldAddr); isFa {
-					if fieldName(fa) == "Text" && t != nil && sameValue(st.Val, t) {
-						nOK++
+	if f != nil {
+		for i, ret := range returnsOf(f) {
+			checkPair(fmt.Sprintf("return#%d", i), ret, retResult(ret, 0), retResult(ret, 1), f.Params[0])
+		}
+		// NewLineFromString stores both parts in place
+		cs := callsTo(nl, f)
+		ok := len(cs) == 1
+		if ok {
+			t, e := resultOf(cs[0], 0), resultOf(cs[0], 1)
+			nOK := 0
+			eachInstr(nl, func(in ssa.Instruction) {
+				if st, isSt := in.(*ssa.Store); isSt {
+					if fa, isFa := st.Addr.(*ssa.FieldAddr); isFa {
+						if fieldName(fa) == "Text" && t != nil && sameValue(st.Val, t) {
+							nOK++
+						}
+						if fieldName(fa) == "LineEnding" && e != nil && sameValue(st.Val, e) {
+							nOK++
+						}
 					}
-					if fieldName(fa) == "LineEnding" && e != nil && sameValue(st.Val, e) {
-						nOK++
+				}
+			})
+			ok = nOK == 2 && strip(cs[0].Common().Args[0]) == ssa.Value(nl.Params[0])
+		}
+		r.check(ok, rule, "NewLineFromString", p.pos(nl.Pos()), "Line{Text, LineEnding} = splitOffLineEnding(raw)", "NewLineFromString does not store the two parts of its argument as Text and LineEnding")
+		return
+	}
+	// no separate splitting function: NewLineFromString builds the Line from its argument itself.
+	// Every Line literal it returns is one way of splitting.
+	n := 0
+	for i, ret := range plainReturnsOf(nl) {
+		u, isU := plainDeref(ret.Results[0]).(*ssa.UnOp)
+		var lit *ssa.Alloc
+		if isU && u.Op == token.MUL {
+			lit, _ = u.X.(*ssa.Alloc)
+		}
+		if lit == nil || lit.Referrers() == nil {
+			r.undecided(rule, fmt.Sprintf("return#%d", i), p.instrPos(ret), "NewLineFromString does not return a Line literal")
+			continue
+		}
+		var tv, ev ssa.Value = ssa.NewConst(constant.MakeString(""), types.Typ[types.String]), ssa.NewConst(constant.MakeString(""), types.Typ[types.String])
+		var at ssa.Instruction = ret
+		for _, ref := range *lit.Referrers() {
+			if fa, isFa := ref.(*ssa.FieldAddr); isFa && fa.Referrers() != nil {
+				for _, r2 := range *fa.Referrers() {
+					if st, isSt := r2.(*ssa.Store); isSt && st.Addr == ssa.Value(fa) {
+						switch fieldName(fa) {
+						case "Text":
+							tv, at = st.Val, st
+						case "LineEnding":
+							ev = st.Val
+						}
 					}
 				}
 			}
-		})
-		ok = nOK == 2 && strip(cs[0].Common().Args[0]) == ssa.Value(nl.Params[0])
-	}
-	r.check(ok, rule, "NewLineFromString", p.pos(nl.Pos()), "Line{Text, LineEnding} = splitOffLineEnding(raw)", "NewLineFromString does not store the two parts of its argument as Text and LineEnding")
-}
-
-// builderFold: text == sb.String() for a local strings.Builder that receives exactly one
-// WriteString(l.Original()) per line of r.lines, unconditionally. handled=false when text is
-// not built with a strings.Builder.
-func (p *Prog) builderFold(f *ssa.Function, text ssa.Value, orig *ssa.Function) (ok bool, handled bool) {
-	c, idx := callOf(text)
-	if c == nil || idx != 0 || staticCallee(c) == nil || staticCallee(c).String() != "(*strings.Builder).String" {
-		return false, false
-	}
-	sb, isA := strip(c.Common().Args[0]).(*ssa.Alloc)
-	if !isA {
-		return false, true
-	}
-	n := 0
-	good := true
-	eachInstr(f, func(in ssa.Instruction) {
-		w, ok := in.(ssa.CallInstruction)
-		if !ok || staticCallee(w) == nil || len(w.Common().Args) == 0 || strip(w.Common().Args[0]) != ssa.Value(sb) || w == c {
-			return
 		}
-		switch staticCallee(w).String() {
-		case "(*strings.Builder).WriteString":
-			n++
-			oc, isO := isCallTo(w.Common().Args[1], orig, 0)
-			if !isO {
-				good = false
-				return
-			}
-			coll := rangeElemOf(oc.Common().Args[0])
-			if coll == nil {
-				good = false
-				return
-			}
-			if _, fld := fieldLoad(coll); fld != "lines" {
-				good = false
-			}
-			if only, _ := onlyLoopGuards(w.Block()); !only {
-				good = false
-			}
-		case "(*strings.Builder).Grow", "(*strings.Builder).Len":
-		default:
-			good = false
-		}
-	})
-	return good && n == 1, true
+		n++
+		checkPair(fmt.Sprintf("return#%d", i), at, tv, ev, nl.Params[0])
+	}
+	if n < 2 {
+		r.undecided(rule, "floor", p.pos(nl.Pos()), "expected NewLineFromString to split its argument itself in at least two ways (with and without a line ending), found %d", n)
+	}
 }
